@@ -134,7 +134,7 @@ def compare(op, t, tsig, want, got, case, what):
     return "path-ok", []
 
 
-BAD_VALUES = ["x", b"zz", -1, 1 << 70, 1.5, None, "€", "nolabel", [1]]
+BAD_VALUES = ["x", b"zz", -1, 1 << 70, 1.5, None, "€", "nolabel", [1], "y" * 300]      # the last one overflows one-byte length prefixes
 
 
 def positions(t, v, prefix=()):
